@@ -25,4 +25,5 @@ def run(ctx):
     ctx.run("C12.FRESH-SOURCE", "R-WHO", mem.fresh_source)
     ctx.run("C05.CODE-READER", "R-ERRDISC", mem.code_reader)
     ctx.run("C05.INVALIDATE-ORDER", "R-ORDER", mem.invalidate_order)
+    ctx.run("C05.LABEL-AFTER-WIPE", "R-ORDER", mem.label_after_wipe)
     ctx.run("C12.GETSTATE", "R-WHO", mem.getstate_pure)
